@@ -306,7 +306,7 @@ fn callables() -> BTreeMap<String, Callable> {
     m
 }
 
-fn inputs() -> Vec<(i64, i64, bool)> {
+pub fn inputs() -> Vec<(i64, i64, bool)> {
     let mut v = Vec::new();
     for x in 0..3 {
         for y in 0..2 {
@@ -316,6 +316,30 @@ fn inputs() -> Vec<(i64, i64, bool)> {
         }
     }
     v
+}
+
+pub fn initial_io() -> RecIo {
+    let mut io = RecIo::new();
+    io.facts.insert(
+        (ident!("F"), vec![FactKey::new(ident!("k"), HashableValue::Int(1))]),
+        vec![FactValue::new(ident!("v"), Value::Int(1))],
+    );
+    io
+}
+
+pub fn this_struct(name: &str, x: i64, y: i64, b: bool) -> Struct {
+    Struct {
+        name: ident_of(name),
+        fields: [(ident!("x"), Value::Int(x)), (ident!("y"), Value::Int(y)), (ident!("b"), Value::Bool(b))].into_iter().collect(),
+    }
+}
+
+pub fn doc_text(policies: &[&Vec<Stmt>], base: usize) -> String {
+    let mut text = String::from(SHARED);
+    for (i, p) in policies.iter().enumerate() {
+        text.push_str(&command_text(&format!("C{}", base + i), p));
+    }
+    text
 }
 
 fn to_call(e: &IoEvent) -> IoCall {
@@ -350,10 +374,7 @@ pub fn policy_key(policy: &[Stmt]) -> String {
 }
 
 fn run_batch(rep: &mut Report, policies: &[&Vec<Stmt>], base: usize, goes_wrong_only: bool) {
-    let mut text = String::from(SHARED);
-    for (i, p) in policies.iter().enumerate() {
-        text.push_str(&command_text(&format!("C{}", base + i), p));
-    }
+    let text = doc_text(policies, base);
     let machine = match vmrun::compile_text(&text, Ffi::None) {
         Ok(m) => Machine::from_module(m).unwrap_or_else(|_| mcx::machinery_error("module version")),
         Err(e) => {
@@ -380,21 +401,8 @@ fn run_batch(rep: &mut Report, policies: &[&Vec<Stmt>], base: usize, goes_wrong_
         for (x, y, b) in inputs() {
             rep.count("states", 1);
             rep.count("traces_validated_against_impl", 1);
-            let this_vm = Struct {
-                name: ident_of(&name),
-                fields: [
-                    (ident!("x"), Value::Int(x)),
-                    (ident!("y"), Value::Int(y)),
-                    (ident!("b"), Value::Bool(b)),
-                ]
-                .into_iter()
-                .collect(),
-            };
-            let mut io = RecIo::new();
-            io.facts.insert(
-                (ident!("F"), vec![FactKey::new(ident!("k"), HashableValue::Int(1))]),
-                vec![FactValue::new(ident!("v"), Value::Int(1))],
-            );
+            let this_vm = this_struct(&name, x, y, b);
+            let mut io = initial_io();
             let mut steps = 0u64;
             let out = vmrun::run_command(&machine, &mut io, this_vm, &mut steps);
             rep.count("transitions", steps);
